@@ -154,6 +154,44 @@ func init() {
 		if !sameStrings(rr.Rest, res.Rest) {
 			c.Fail("overflow-to-rest", map[string]interface{}{"want": res.Rest, "got": rr.Rest})
 		}
+		if c.Failed() {
+			return
+		}
+		// the declaration itself is not consumed by a parse: the public list of positional arguments is unchanged,
+		// and parsing the same vector again on the same parser binds the same fields (scalar layouts; a slice field
+		// keeps what the first parse appended, which no property speaks about)
+		for cmdDecl, fc := range b.Cmds {
+			if fc == nil {
+				continue
+			}
+			var want, got []string
+			for _, a := range cmdDecl.Pos {
+				want = append(want, a.ShownName())
+			}
+			for _, a := range fc.Args() {
+				got = append(got, a.Name)
+			}
+			if !sameStrings(want, got) {
+				c.Fail("declared-positionals-changed-by-parse", map[string]interface{}{"command": cmdDecl.Name, "declared": want, "after_parse": got})
+				return
+			}
+		}
+		if c10Slices[si] == nil {
+			c.Hit("second-parse")
+			rr2 := runParser(b, cfg, argv, runOpts{})
+			if rr2.Panic != nil {
+				c.Fail("panic-on-second-parse|"+rr2.PanicSite, fmt.Sprint(rr2.Panic))
+				return
+			}
+			if rr2.Err != nil {
+				c.Fail("second-parse-of-same-vector-rejected|"+errType(rr2.Err), fmt.Sprint(rr2.Err))
+				return
+			}
+			comparePositionals(c, b, res, "second-parse-")
+			if !sameStrings(rr2.Rest, res.Rest) {
+				c.Fail("second-parse-overflow-to-rest", map[string]interface{}{"want": res.Rest, "got": rr2.Rest})
+			}
+		}
 	}
 	explore.Register(&explore.Check{
 		ID:         "C10",
@@ -161,9 +199,9 @@ func init() {
 		ShardDepth: 3,
 		Body:       body,
 		Rule: "positional layouts: every sequence of 0..3 scalar fields over {string, int, Unmarshaler} x trailing slice {none, []string, []int} x owner {parser, command} x PassDoubleDash on/off x {tags, API} " +
-			"x every sequence of <= 4 (quick) / <= 6 (thorough) units over {w, 7, -3, -v, -s val, --, -x, cmd, --str=q}; oracle = CLM positional queue (field values after conversion, overflow into remaining arguments)",
+			"x every sequence of <= 4 (quick) / <= 6 (thorough) units over {w, 7, -3, -v, -s val, --, -x, cmd, --str=q}; oracle = CLM positional queue (field values after conversion, overflow into remaining arguments); after every accepted vector the public Args() list must still be the declared one and, for layouts without a slice, a second parse of the same vector on the same parser must bind the same fields",
 		Assumptions:  []string{"conversion of the alphabet's tokens is taken from the conversion model (checked against the library by C11)"},
-		RequiredHits: []string{"compared", "three-or-more-bound", "after-terminator", "conversion-fault"},
+		RequiredHits: []string{"compared", "three-or-more-bound", "after-terminator", "conversion-fault", "second-parse"},
 		Bound:        [2]string{"all unit sequences of length <= 4", "all unit sequences of length <= 6"},
 		BudgetS:      [2]int{100, 1500},
 	})
